@@ -104,6 +104,7 @@ type c11Att struct {
 	AnnExit      uint64 `json:"ann_exit"`     // clock when the announcement context was cancelled
 	AnnWaited    bool   `json:"ann_waited"`   // the fake waited for that cancellation
 	AnnCut       bool   `json:"ann_cut"`      // ... but it was the loop context that ended
+	AnnEntryCut  bool   `json:"ann_entry_cut"` // the loop context was already over when the announcer was invoked
 	Listened     bool   `json:"listened"`     // done check armed (signing)
 	ListenTO     uint64 `json:"listen_to"`    // timeout block handed to the done check
 	Executed     bool   `json:"executed"`     // attempt function invoked
@@ -253,7 +254,7 @@ func (e *c11Env) getCurrentBlock() (uint64, error) {
 func (e *c11Env) Announce(ctx context.Context, member group.MemberIndex, sessionID string) ([]group.MemberIndex, error) {
 	e.sync()
 	a := e.att
-	a.Announced, a.AnnEntry = true, e.clk.now
+	a.Announced, a.AnnEntry, a.AnnEntryCut = true, e.clk.now, e.parentOver()
 	k := e.choose(4, "announce")
 	if k == 3 {
 		e.label("announce-error")
@@ -600,6 +601,12 @@ func (o *c11Oracle) check(cfg c11Cfg, hist [][]int, tr *c11Trace) {
 					fmt.Sprintf("attempt %d begins at block %d but attempt %d times out at block %d", a.N, a.Start, prev.N, to), rp)
 			}
 		}
+		if a.Announced && !a.AnnEntryCut && a.N > 1 {
+			if to, ok := o.lookup(cfg, a.N-1, "timeout"); ok && a.AnnEntry <= to {
+				o.r.ViolationMin(cfg.Kind+":overlap-announcement", size, fp("overlap-announcement"),
+					fmt.Sprintf("the member announced for attempt %d at block %d, but attempt %d only times out at block %d", a.N, a.AnnEntry, a.N-1, to), rp)
+			}
+		}
 		// --- only take part while the announcement phase has not passed --------
 		if a.AnnWaited && !a.AnnCut && a.AnnExit == a.AnnEntry {
 			if cfg.Kind == "signing" {
@@ -694,7 +701,7 @@ func TestVerifC11(t *testing.T) {
 		start uint64
 	}
 	groups := []c11Group{{"signing", 200}, {"dkg", 200}, {"signing", 1 << 40}, {"dkg", 1 << 40}}
-	attempts := map[string]int{"signing": 3, "dkg": 3}
+	attempts := map[string]int{"signing": 4, "dkg": 3}
 	members := []int{1, 2, 3}
 	if r.Thorough() {
 		attempts = map[string]int{"signing": 5, "dkg": 4}
